@@ -18,12 +18,12 @@ import (
 func init() { register("C15", checkC15) }
 
 type mSpec struct {
-	Lenient bool      `json:"lenient,omitempty"` // ErrOnMissingPath(false)
-	Kind   string     `json:"kind"` // any | type | custom
-	Path   vkit.JPath `json:"-"`
-	PathS  string     `json:"path"`
-	PH     any        `json:"placeholder"`
-	PHKind string     `json:"placeholder_kind"`
+	Lenient bool       `json:"lenient,omitempty"` // ErrOnMissingPath(false)
+	Kind    string     `json:"kind"`              // any | type | custom
+	Path    vkit.JPath `json:"-"`
+	PathS   string     `json:"path"`
+	PH      any        `json:"placeholder"`
+	PHKind  string     `json:"placeholder_kind"`
 }
 
 func drawPlaceholder(r *rand.Rand) (any, string) {
@@ -245,9 +245,122 @@ func c15JSONMultiPath(c *vkit.Ctx, r *rand.Rand, i int) {
 	c.Case(vkit.Hash("jm", text, fmt.Sprint(paths), phk), true)
 }
 
+// c15JSONOverlap: one Any/Type matcher whose path list overlaps itself (parent before
+// child, child before parent, the same path twice). "Matchers take effect left to
+// right": the k-th path is looked up in the document as the first k-1 replacements left
+// it, so the matcher must agree - output tree and set of paths it reported - with the
+// same paths handed one by one to single-path matchers, each fed the previous output.
+func c15JSONOverlap(c *vkit.Ctx, r *rand.Rand, i int) {
+	d := vkit.JSONObjectDoc(r, 4, 2, vkit.Classes{})
+	var all []vkit.JPath
+	for _, p := range d.Paths() {
+		if gjsonAddressable(p) {
+			all = append(all, p)
+		}
+	}
+	if len(all) == 0 {
+		return
+	}
+	var deep []vkit.JPath
+	for _, p := range all {
+		if len(p.Steps) >= 2 {
+			deep = append(deep, p)
+		}
+	}
+	var ps []vkit.JPath
+	shape := "same-path-twice"
+	switch x := r.IntN(4); {
+	case x < 2 && len(deep) > 0:
+		ch := deep[r.IntN(len(deep))]
+		par := vkit.JPath{Steps: ch.Steps[:1+r.IntN(len(ch.Steps)-1)]}
+		if x == 0 {
+			ps, shape = []vkit.JPath{par, ch}, "parent-before-child"
+		} else {
+			ps, shape = []vkit.JPath{ch, par}, "child-before-parent"
+		}
+	default:
+		p := all[r.IntN(len(all))]
+		ps = []vkit.JPath{p, p}
+	}
+	if r.IntN(3) == 0 {
+		ps = append(ps, all[r.IntN(len(all))])
+	}
+	var paths []string
+	for _, p := range ps {
+		paths = append(paths, p.GJSON())
+	}
+	kind := "any"
+	ph, phk := drawPlaceholder(r)
+	mk := func(ps ...string) match.JSONMatcher { return match.Any(ps...).Placeholder(ph) }
+	if r.IntN(2) == 0 {
+		// Type of the first path's value: the second visit of a path sees the placeholder string
+		kind = "type"
+		switch d.At(ps[0]).Kind {
+		case "str":
+			mk = func(ps ...string) match.JSONMatcher { return match.Type[string](ps...) }
+		case "num":
+			mk = func(ps ...string) match.JSONMatcher { return match.Type[float64](ps...) }
+		case "bool":
+			mk = func(ps ...string) match.JSONMatcher { return match.Type[bool](ps...) }
+		case "obj":
+			mk = func(ps ...string) match.JSONMatcher { return match.Type[map[string]any](ps...) }
+		case "arr":
+			mk = func(ps ...string) match.JSONMatcher { return match.Type[[]any](ps...) }
+		default:
+			kind = "any"
+		}
+	}
+	text := d.Render(r, false)
+	in := map[string]any{"sub": "json-direct-overlapping-paths", "document": vkit.Clip(text, 3000), "paths": paths, "matcher": kind, "placeholder": ph, "shape": shape}
+	out, errs := mk(paths...).JSON([]byte(text))
+	c.Count("json_overlapping_paths_applications", 1)
+	c.Count("overlap:"+shape, 1)
+	seq := []byte(text)
+	var seqErr []string
+	for _, p := range paths {
+		o, es := mk(p).JSON(append([]byte{}, seq...))
+		for _, e := range es {
+			seqErr = append(seqErr, e.Path)
+		}
+		if o != nil {
+			seq = o
+		}
+	}
+	var gotErr []string
+	for _, e := range errs {
+		gotErr = append(gotErr, e.Path)
+	}
+	if fmt.Sprint(gotErr) != fmt.Sprint(seqErr) {
+		c.Violate("multi-path-matcher-not-left-to-right", "", fmt.Sprintf("%s(%v) [%s]: reported paths %v, the same paths applied one after the other report %v; output %s", kind, paths, shape, gotErr, seqErr, vkit.Q(vkit.Clip(string(out), 600))), in)
+		return
+	}
+	got, err := vkit.ParseJSON(string(out))
+	if err != nil {
+		c.Violate("matcher-output-invalid-json", "", err.Error(), in)
+		return
+	}
+	want, err := vkit.ParseJSON(string(seq))
+	if err != nil {
+		c.Violate("matcher-output-invalid-json", "", err.Error(), in)
+		return
+	}
+	if diff := want.Equal(got, true); diff != "" {
+		c.Violate("multi-path-matcher-not-left-to-right", "", fmt.Sprintf("%s(%v) [%s] placeholder %s: differs at %s from the same paths applied one after the other; output %s, one by one %s", kind, paths, shape, phk, diff, vkit.Q(vkit.Clip(string(out), 600)), vkit.Q(vkit.Clip(string(seq), 600))), in)
+		return
+	}
+	if len(gotErr) > 0 {
+		c.Count("overlap_later_path_reported", 1)
+	}
+	c.Case(vkit.Hash("jo", text, kind, fmt.Sprint(paths), phk), true)
+}
+
 func c15JSONDirect(c *vkit.Ctx, r *rand.Rand, i int) {
 	if i%12 == 0 {
 		c15JSONMultiPath(c, r, i)
+		return
+	}
+	if i%12 == 4 {
+		c15JSONOverlap(c, r, i)
 		return
 	}
 	cl := vkit.Classes{}
@@ -460,7 +573,87 @@ func c15YAMLMultiPath(c *vkit.Ctx, r *rand.Rand, i int) {
 	c.Case(vkit.Hash("ym", text, fmt.Sprint(paths), phk), true)
 }
 
+// c15YAMLOverlap: the YAML counterpart of c15JSONOverlap (Any only; the paths overlap).
+func c15YAMLOverlap(c *vkit.Ctx, r *rand.Rand, i int) {
+	d := vkit.YAMLTreeDoc(r, 4)
+	text := vkit.YAMLFromTree(d)
+	docs, err := vkit.ParseYAMLDocs(text)
+	if err != nil || len(docs) != 1 || d.Equal(docs[0], true) != "" {
+		c.Count("premise_yaml_emitter_roundtrip_failed", 1)
+		return
+	}
+	all := d.Paths()
+	var deep []vkit.JPath
+	for _, p := range all {
+		if len(p.Steps) >= 2 {
+			deep = append(deep, p)
+		}
+	}
+	if len(all) == 0 {
+		return
+	}
+	var ps []vkit.JPath
+	shape := "same-path-twice"
+	switch x := r.IntN(4); {
+	case x < 2 && len(deep) > 0:
+		ch := deep[r.IntN(len(deep))]
+		par := vkit.JPath{Steps: ch.Steps[:1+r.IntN(len(ch.Steps)-1)]}
+		if x == 0 {
+			ps, shape = []vkit.JPath{par, ch}, "parent-before-child"
+		} else {
+			ps, shape = []vkit.JPath{ch, par}, "child-before-parent"
+		}
+	default:
+		p := all[r.IntN(len(all))]
+		ps = []vkit.JPath{p, p}
+	}
+	var paths []string
+	for _, p := range ps {
+		paths = append(paths, p.YAMLPath())
+	}
+	ph, phk := drawPlaceholder(r)
+	in := map[string]any{"sub": "yaml-direct-overlapping-paths", "document": text, "paths": paths, "placeholder": ph, "shape": shape}
+	out, errs := match.Any(paths...).Placeholder(ph).YAML([]byte(text))
+	c.Count("yaml_overlapping_paths_applications", 1)
+	c.Count("yaml_overlap:"+shape, 1)
+	seq := []byte(text)
+	var seqErr, gotErr []string
+	for _, p := range paths {
+		o, es := match.Any(p).Placeholder(ph).YAML(append([]byte{}, seq...))
+		for _, e := range es {
+			seqErr = append(seqErr, e.Path)
+		}
+		if o != nil {
+			seq = o
+		}
+	}
+	for _, e := range errs {
+		gotErr = append(gotErr, e.Path)
+	}
+	if fmt.Sprint(gotErr) != fmt.Sprint(seqErr) {
+		c.Violate("multi-path-matcher-not-left-to-right", "", fmt.Sprintf("YAML Any(%v) [%s]: reported paths %v, the same paths applied one after the other report %v; output %s", paths, shape, gotErr, seqErr, vkit.Q(vkit.Clip(string(out), 600))), in)
+		return
+	}
+	gd, err := vkit.ParseYAMLDocs(string(out))
+	wd, err2 := vkit.ParseYAMLDocs(string(seq))
+	if err != nil || err2 != nil || len(gd) != 1 || len(wd) != 1 {
+		if (err != nil || len(gd) != 1) && len(gotErr) == 0 {
+			c.Violate("matcher-output-invalid-yaml", "", fmt.Sprintf("YAML Any(%v) placeholder %s: output does not decode to one document (%v): %s", paths, phk, err, vkit.Q(string(out))), in)
+		}
+		return
+	}
+	if diff := wd[0].Equal(gd[0], true); diff != "" {
+		c.Violate("multi-path-matcher-not-left-to-right", "", fmt.Sprintf("YAML Any(%v) [%s] placeholder %s: differs at %s from the same paths applied one after the other; output %s, one by one %s", paths, shape, phk, diff, vkit.Q(vkit.Clip(string(out), 600)), vkit.Q(vkit.Clip(string(seq), 600))), in)
+		return
+	}
+	c.Case(vkit.Hash("yo", text, fmt.Sprint(paths), phk), true)
+}
+
 func c15YAMLDirect(c *vkit.Ctx, r *rand.Rand, i int) {
+	if i%12 == 6 {
+		c15YAMLOverlap(c, r, i)
+		return
+	}
 	if i%12 == 2 {
 		c15YAMLMultiPath(c, r, i)
 		return
